@@ -34,6 +34,8 @@ def from_native(value: Any) -> GenericSchema:
     elif isinstance(value, list):
         return ListSchema()([from_native(x) for x in value])
     elif isinstance(value, dict):
+        if any(key is ... for key in value):
+            raise ValueError(value)
         return DictSchema()({key: from_native(val) for key, val in value.items()})
     elif isinstance(value, bytes):
         return BytesSchema()(value)
